@@ -106,10 +106,11 @@ type State struct {
 	PathID  int
 	Steps   int
 	Clock   *Term
+	CutLoops int
 }
 
 func (st *State) clone() *State {
-	n := &State{Alloc: st.Alloc, Disc: st.Disc, PathID: st.PathID, Steps: st.Steps, Clock: st.Clock}
+	n := &State{Alloc: st.Alloc, Disc: st.Disc, PathID: st.PathID, Steps: st.Steps, Clock: st.Clock, CutLoops: st.CutLoops}
 	n.Frames = make([]*Frame, len(st.Frames))
 	for i, f := range st.Frames {
 		nf := *f
